@@ -146,15 +146,38 @@ def _narrow_scores(draw):
                        en=draw(st.sampled_from([0, 0, 2])), mode="int", arr=arr, np_dtype=dtype))
 
 
+@st.composite
+def _longdouble_scores(draw):
+    """Extended-precision scores whose neighbours differ only in the bits beyond float64."""
+    n, m = draw(st.integers(1, 5)), draw(st.integers(1, 5))
+    ks = draw(st.lists(st.integers(-40, 40), min_size=n + m, max_size=n + m,
+                       unique=draw(st.booleans())))
+    arr = draw(st.sampled_from(["mixed", "separated", "separated", "inverted", "inverted"]))
+    pos, neg = gen.arrange(draw, ks, n, m, arr)
+    return dict(s=dict(pos=list(pos), neg=list(neg), ep=draw(st.sampled_from([0, 0, 3])),
+                       en=draw(st.sampled_from([0, 0, 2])), mode="int", arr=arr, np_dtype="longdouble",
+                       base=draw(st.sampled_from([1.0, 0.75, -3.0, 100.0, 0.001]))))
+
+
+def _arrays(s):
+    dt = s.get("np_dtype") or (int if s["mode"] == "int" else float)
+    if dt == "longdouble":
+        base = np.longdouble(s["base"])
+        step = np.spacing(base)  # one unit in the last place of the extended format
+        return (base + np.asarray(s["pos"], dtype=np.longdouble) * step,
+                base + np.asarray(s["neg"], dtype=np.longdouble) * step)
+    return np.asarray(s["pos"], dtype=dt), np.asarray(s["neg"], dtype=dt)
+
+
 def check_zero(case):
     s = case["s"]
-    dt = s.get("np_dtype") or (int if s["mode"] == "int" else float)
     zero = False
     labels = [f"arr:{s['arr']}"] + ([f"dtype:{s['np_dtype']}"] if s.get("np_dtype") else [])
     from score_analysis import Scores
 
     for sc, ec in CONFIGS:
-        obj = Scores(np.asarray(s["pos"], dtype=dt), np.asarray(s["neg"], dtype=dt),
+        p_arr, n_arr = _arrays(s)
+        obj = Scores(p_arr, n_arr,
                      nb_easy_pos=s["ep"], nb_easy_neg=s["en"], score_class=sc, equal_class=ec)
         t, e = obj.eer()
         require(0.0 <= float(e) <= 1.0, "eer:range", f"config={sc}/{ec} eer={e!r}")
@@ -187,10 +210,10 @@ PROP = Prop(
     clauses=[
         Clause("crossing", check_crossing, strategy=lambda tier: _tiefree(12 if tier == "quick" else 40), quick=100, thorough=2000,
                quick_shards=6, min_nontrivial=100, doc="defining relation, cap, equivariance"),
-        Clause("zero", check_zero, strategy=st.one_of(_any_scores(), _any_scores(), _narrow_scores()), quick=250, thorough=4800, quick_shards=2,
+        Clause("zero", check_zero, strategy=st.one_of(_any_scores(), _any_scores(), _any_scores(), _narrow_scores(), _narrow_scores(), _longdouble_scores()), quick=250, thorough=4800, quick_shards=2,
                min_nontrivial=50, doc="reported EER 0 comes with an error-free threshold"),
     ],
     assumptions=["'moderate magnitude': |score| <= ~2e6; tie-free inputs have separation >= 1e-3"],
 )
 
-RULE_EXTRA = ('score scales 1e-9..1e6; uint8/int8/int16/uint16/float16 scores near the top of their range (zero clause); GroupScores over the same unsorted data must give the same eer().')
+RULE_EXTRA = ('score scales 1e-9..1e6; uint8/int8/int16/uint16/float16 scores near the top of their range and long-double scores one extended ulp apart (zero clause); GroupScores over the same unsorted data must give the same eer().')
